@@ -909,6 +909,18 @@ pub struct Sh<F>(pub F);
 pub fn idf<M, T>(t: T) -> T {
     t
 }
+/// identity whose further arguments are literals made of operator characters
+pub fn lit<T>(t: T, _c: char, _s: &str) -> T {
+    t
+}
+/// identity with a range argument
+pub fn idr<T>(t: T, _r: std::ops::RangeInclusive<u8>) -> T {
+    t
+}
+/// struct-literal operand: `w::Wr { f: callback }.f`
+pub struct Wr<F> {
+    pub f: F,
+}
 pub fn sh<F>(f: F) -> Sh<F> {
     Sh(f)
 }
